@@ -1,6 +1,7 @@
 package main
 
 import (
+	"sort"
 	"context"
 	"fmt"
 	rconfig "seata.apache.org/seata-go/pkg/remoting/config"
@@ -244,12 +245,20 @@ func runC19Reconnect(c *Ctx) {
 		return
 	}
 	points := []string{"idle", "in-flight", "between-phases"}
-	rounds := 1
+	rounds := 2
 	if c.Tier == "thorough" {
-		rounds = 3
+		rounds = 4
 	}
 	n := 0
+	resources := []string{act.name}
 	for round := 0; round < rounds; round++ {
+		if round > 0 {
+			// one more resource registered before the next losses: every one of them is to be announced again
+			extra := &simpleAction{name: fmt.Sprintf("c19-extra%d", round)}
+			if _, e := tcc.NewTCCServiceProxy(extra); e == nil {
+				resources = append(resources, extra.name)
+			}
+		}
 		for _, point := range points {
 			n++
 			cid := fmt.Sprintf("reconnect-%d", n)
@@ -312,8 +321,16 @@ func runC19Reconnect(c *Ctx) {
 				}
 				return tmSeen && rmSeen
 			})
-			var ann []string
-			rmAnnounced := false
+			coord.WaitFor(300*time.Millisecond, func(l []LoggedReq) bool {
+				k := 0
+				for _, e := range l {
+					if e.Session == ns.id && e.Kind == "RegisterRM" {
+						k++
+					}
+				}
+				return k >= len(resources)
+			})
+			var ann, rms []string
 			for _, e := range coord.Snapshot() {
 				if e.Session != ns.id {
 					continue
@@ -322,12 +339,26 @@ func runC19Reconnect(c *Ctx) {
 					ann = append(ann, "TM")
 				}
 				if e.Kind == "RegisterRM" {
-					ann = append(ann, "RM("+e.Xid+")")
-					if strings.Contains(e.Xid, act.name) {
-						rmAnnounced = true
-					}
+					// the resources come out of a sync.Map: their order is not a function of the state
+					rms = append(rms, "RM("+e.Xid+")")
 				}
 			}
+			sort.Strings(rms)
+			ann = append(ann, rms...)
+			missing := ""
+			for _, r := range resources {
+				found := false
+				for _, a := range rms {
+					if a == "RM("+r+")" {
+						found = true
+					}
+				}
+				if !found {
+					missing = r
+					break
+				}
+			}
+			rmAnnounced := missing == ""
 			// direction 1: a new global transaction can begin (and end) on the new session
 			beginOK := "ok"
 			if e := tm.WithGlobalTx(context.Background(), &tm.GtxConfig{Name: cid + "-after"}, func(context.Context) error { return nil }); e != nil {
@@ -356,16 +387,16 @@ func runC19Reconnect(c *Ctx) {
 				}
 			}
 			obs := fmt.Sprintf("announce=%s begin=%s phase2=%s", strings.Join(ann, ","), beginOK, phase2)
-			c.Out.Case(cid, "C19", "reconnect 1 "+point, obs)
+			c.Out.Case(cid, "C19", "reconnect "+strings.Join(resources, ",")+" "+point, obs)
 			switch {
 			case beginOK != "ok" || phase2 == "failed" || len(ann) == 0:
 				c.Out.Oracle(cid, false, "reconnect_broken", obs)
 			case !rmAnnounced:
-				c.Out.Oracle(cid, false, "rm_not_reannounced", "resource "+act.name+" not announced on the new session | "+obs)
+				c.Out.Oracle(cid, false, "rm_not_reannounced", "resource "+missing+" not announced on the new session | "+obs)
 			default:
 				c.Out.Oracle(cid, true, "", "")
 			}
-			c.Out.Tag(cid, "nontrivial=1 known=rm_not_reannounced")
+			c.Out.Tag(cid, "nontrivial=1")
 			c.Out.Count("reconnect." + point)
 		}
 	}
